@@ -102,6 +102,11 @@ func cmdCheck(prop, tier string) int {
 		seed, _ = strconv.Atoi(s)
 	}
 	cfg := runCfg{tier: tier, timeoutMs: 240000, jobs: 5}
+	if s := os.Getenv("GOWP_TIMEOUT_MS"); s != "" { // development only: shorter solver budget while iterating on contracts
+		if v, err := strconv.Atoi(s); err == nil && v > 0 {
+			cfg.timeoutMs = v
+		}
+	}
 	if tier == "thorough" {
 		cfg.timeoutMs = 600000
 		cfg.allSolver = true
